@@ -74,11 +74,12 @@ INTS_MORE = [-2, 7, 3, 2 ** 53 + 1, 2 ** 63, -(2 ** 63) - 1, -(10 ** 40)]
 FLOATS_CORE = [0.0, -0.0, 1.0, -2.5, 1e308, 5e-324, float(2 ** 63)]
 FLOATS_MORE = [-1.0, 0.5, 2.5, float(2 ** 53), 1e40, -1e308, 1.7976931348623157e308, 2.2250738585072014e-308, 7.0]
 FLOATS_SPECIAL = [float("inf"), float("-inf"), float("nan")]
-STRS_CORE = ["", "a", "ab", "b", "z", "\u00e9", "e\u0301", "a\U0001F600",
-             "\u00c5", "A\u030a", "\u212b",          # A-ring: precomposed, combining sequence, ANGSTROM SIGN
-             "\u1100\u1161", "\uac00",               # Hangul jamo / the syllable
+STRS_CORE = ["", "a", "ab", "b", "\u00e9", "e\u0301", "a\U0001F600",
+             "\u00c5", "A\u030a",                     # A-ring: precomposed, combining sequence
              "\ud800"]                                # lone surrogate
-STRS_MORE = ["A", "aa", "\U0001F600", "\uffff", "ababab", "1", "\x00", "\u03a9", "\u2126",   # OMEGA / OHM SIGN
+STRS_MORE = ["A", "aa", "z", "\U0001F600", "\uffff", "ababab", "1", "\x00", "\u03a9", "\u2126",   # OMEGA / OHM SIGN
+             "\u212b",                                # ANGSTROM SIGN
+             "\u1100\u1161", "\uac00",               # Hangul jamo / the syllable
              "\u00e9t\u00e9", "e\u0301te\u0301", "\U0001F1E9\U0001F1EA", "\ufb01", "\udc00\ud800", "e\u0301\u0300"]
 OTHERS = [None, True, False]
 SEQS = [[1, 2], (1, 2), [], ()]
@@ -1170,9 +1171,15 @@ def py_mid(sp, a, b):
 
 def observe(im, case):
     text, env = case_text(case), case_env(case)
-    plain = im.run(text, **env)
     traced, ran = im.run_traced(text, **env)
+    # the untouched context is observed as well, except for the repeated grids of the other configurations
+    # and routes in the quick tier (their instrumented context is the same construction)
+    light = _quick[0] and (cfg_of(case) != "CDefault" or case.get("route") or case.get("post")) and not case.get("quota")
+    plain = traced if light else im.run(text, **env)
     return plain, traced, ran
+
+
+_quick = [False]
 
 
 def triple_mode(im, case):
@@ -1191,6 +1198,7 @@ def triple_mode(im, case):
 
 
 def correspondence(run):
+    _quick[0] = run.quick
     fn_correspondence(run)
     lawsof = {}
     terms, meta, terms64, idx64, tidx, hterms, hidx = [], [], [], [], [], [], []
@@ -1377,7 +1385,8 @@ def route_oracle(run, deep):
         for _, sp in BINARY:
             for a, b in itertools.product(vals, vals):
                 c = {"cfg": cfg, "ops": [sp], "vals": [a, b]}
-                for form in ("lit", "var-lit", "lit-var"):
+                mixed = deep or not run.quick or any(kind(v) in ("bool", "null") or signed(v) for v in (a, b))
+                for form in (("lit", "var-lit", "lit-var") if mixed else ("lit",)):
                     run.count("law:route")
                     r = route_check(c, form)
                     key = (form, cfg, r[0].startswith("a boolean") if r else None)
